@@ -20,6 +20,7 @@ def need(fx, fid):
 
 def run(ctx):
     fx = ctx.facts("default")
+    order.use_facts(fx)
     fixtures.run(ctx, ['order', 'taint', 'trunc', 'arithmul'])
     R = "R-ORDER"
     f = need(fx, MV + "resize_to_capacity")
